@@ -65,7 +65,11 @@ bool CronAlarm::initialize(const std::string &cron_expr_str)
 }
 
 bool CronAlarm::calculateNextLocalTimeSec(uint32_t curr_local_ts, uint32_t &next_local_ts) {
-  next_local_ts = cron_next(static_cast<cron_expr *>(sp_cron_expr_), curr_local_ts);
+  time_t next_ts = cron_next(static_cast<cron_expr *>(sp_cron_expr_), curr_local_ts);
+  if (next_ts == static_cast<time_t>(-1)) //! 找不到下一个时间点（如 "0 0 0 30 2 *"），不能把 -1 当作时间点去定时
+    return false;
+
+  next_local_ts = next_ts;
   return true;
 }
 
